@@ -60,6 +60,39 @@ def judge(plan: dict, tr: P.Trace):
     return None, probes
 
 
+def run_long(case) -> dict:
+    """{"kind": "long-run", "n": N, "seed": s}: the library's own generator of content-encryption key and GCM nonce is called N times
+    in a row inside the world (entropy seam, no ledger): all keys and all nonces must be pairwise distinct.  A nonce that carries
+    fewer than ~40 fresh bits repeats within a few hundred thousand calls with near certainty; 96 fresh bits never do."""
+    from simworld import world as W
+
+    world = W.World(case["seed"])
+    world.entropy.keep_ledger = False
+    viol = None
+    probes = {"long_runs": 1}
+    with world.installed():
+        import dpapi_ng._crypto as dcrypto
+
+        gen = getattr(dcrypto, "cek_generate", None)
+        alg = getattr(getattr(dcrypto, "AlgorithmOID", None), "AES256_WRAP", None)
+        if gen is None or alg is None:
+            probes["long_run_generator_not_found"] = 1
+        else:
+            ceks, nonces = {}, {}
+            for k in range(case["n"]):
+                cek, nonce = gen(alg)
+                for what, v, seen in (("cek", bytes(cek), ceks), ("gcm-nonce", bytes(nonce), nonces)):
+                    if v in seen:
+                        viol = common.violation("C19", "reuse", "long-run", what, "", "",
+                                                f"{what} of generator call {k} equals that of call {seen[v]} ({v.hex()[:24]}...) in a run of {case['n']} calls")
+                        break
+                    seen[v] = k
+                if viol:
+                    break
+            probes["long_run_calls"] = k + 1
+    return {"viol": viol, "digest": f"long:{case['n']}:{bool(viol)}", "key": common.key_hash(case), "fired": {"entropy_draws": world.entropy.counter}, "probes": probes, "vtime_ns": 0}
+
+
 def gen_plan(rng, i: int, tier: str) -> dict:
     kind = rng.choice(("identical-offline", "identical-offline", "identical-online-seed", "identical-online-pub", "mixed", "mixed", "concurrent", "fork",
                        "alternating"))
@@ -195,13 +228,13 @@ class C19(common.Check):
             "after a protect and parent and child both go on protecting, and histories whose key position alternates (clock stepping between two "
             "intervals and back, two root keys used in turn), histories in which the application re-seeds Python's global PRNG with the same value "
             "before every call, public-key replies whose PublicKeyLength field is 0 / 8 / 2^32-1, histories in which the blob an earlier protect returned is protected again, "
-            "histories under a /dev/urandom that returns EOF or short reads to whoever opens it as a file, histories in which one or two asyncio tasks each protect several times in a row, alternating between the async API and the blocking API called from inside the coroutine, histories run in a child interpreter with assertions compiled out (PYTHONOPTIMIZE=1), histories in which os.urandom starts raising (the child's entropy source is re-keyed, buffered state is shared). From each emitted blob the "
+            "histories under a /dev/urandom that returns EOF or short reads to whoever opens it as a file, histories in which one or two asyncio tasks each protect several times in a row, alternating between the async API and the blocking API called from inside the coroutine, runs of 300 000 (thorough: 10^6) consecutive calls of the key / nonce generator, histories run in a child interpreter with assertions compiled out (PYTHONOPTIMIZE=1), histories in which os.urandom starts raising (the child's entropy source is re-keyed, buffered state is shared). From each emitted blob the "
             "reference extracts GCM nonce and key_info and recovers the CEK; all must be pairwise distinct within the history. "
             "Non-trivial = history with >= 2 successful protects; distinct = distinct plan.")
     components = {"client": "real (public API, KeyCache, _encrypt_blob, cek_generate, new_kek)", "entropy": "simulated (os.urandom and AESGCM.generate_key seams, ledger)",
                   "clock": "simulated, frozen", "DC": "model (RefDC)", "security context": "stub (StubCtx)", "blob opener": "model (ref.cms/ref.gkdi)"}
     assumptions = ["the simulated entropy source never repeats a draw; real-world collision probability of fresh 96/256-bit values is outside the claim"]
-    required_fired = ("mode_pub", "mode_nonce", "provenance_ok", "forked_histories", "alternating_positions", "thread_histories", "thread_overlap", "app_reseed_histories", "odd_length_field_histories", "reprotect_histories", "entropy_device_fault_histories", "entropy_source_failure_histories", "histories_with_assertions_compiled_out", "task_chain_histories")
+    required_fired = ("mode_pub", "mode_nonce", "provenance_ok", "forked_histories", "alternating_positions", "thread_histories", "thread_overlap", "app_reseed_histories", "odd_length_field_histories", "reprotect_histories", "entropy_device_fault_histories", "entropy_source_failure_histories", "histories_with_assertions_compiled_out", "task_chain_histories", "long_runs")
 
     def cases(self, tier, seed):
         rng = prng.stream(seed, "C19")
@@ -209,6 +242,9 @@ class C19(common.Check):
         out = [gen_plan(rng, i, tier) for i in range(n)]
         # the same kinds of histories in an interpreter started with assertions compiled out (python -O / PYTHONOPTIMIZE=1, common in
         # containers and frozen applications): one child interpreter per case
+        # very long runs of the key / nonce generator itself (a nonce with few fresh bits repeats within them)
+        for k in range(2 if tier == "quick" else 16):
+            out.append({"kind": "long-run", "n": 300_000 if tier == "quick" else 1_000_000, "seed": 77 + k, "ops": [], "root_keys": [[0, "SHA256", "DH"]]})
         rng2 = prng.stream(seed, "C19", "optimize")
         for i in range(40 if tier == "quick" else 1200):
             pl = gen_plan(rng2, i, tier)
@@ -220,6 +256,8 @@ class C19(common.Check):
         import json
         import os
 
+        if case.get("kind") == "long-run":
+            return run_long(case)
         if case.get("interpreter") == "optimize" and not os.environ.get("VERIF_PRISTINE"):
             inner = {k: v for k, v in case.items() if k != "interpreter"}
             v = common.run_case_fresh("C19", inner, env={"PYTHONOPTIMIZE": "1"})
@@ -283,6 +321,10 @@ class C19(common.Check):
                 "vtime_ns": tr.world.stats.get("vtime_ns", 0)}
 
     def shrink(self, case):
+        if case.get("kind") == "long-run":
+            if case["n"] > 1000:
+                yield dict(case, n=case["n"] // 2)
+            return
         if case.get("kind") == "fork" or case.get("interpreter"):
             return
         ops = case["ops"]
